@@ -203,3 +203,147 @@ impl Ran {
         }
     }
 }
+
+// ------------------------------------------------------------------------------------------------
+// host functions shared by the model-based properties (semantics mirrored in model::eval::eval_host)
+
+use crate::model::eval::{show_key, Table};
+use cel_interpreter::extractors::{Arguments, Identifier, This};
+use cel_interpreter::ResolveResult;
+use std::sync::Mutex;
+
+pub type Log = Arc<Mutex<Vec<String>>>;
+
+pub fn new_log() -> Log {
+    Arc::new(Mutex::new(Vec::new()))
+}
+
+fn boom(name: &str) -> ExecutionError {
+    ExecutionError::function_error(name, "boom")
+}
+
+pub fn install_host(ctx: &mut Context, log: &Log, table: &Table) {
+    let l = log.clone();
+    ctx.add_function("t", move |id: Value, v: Value| -> ResolveResult {
+        l.lock().unwrap().push(format!("t:{}", show_key(&from_cel(&id))));
+        Ok(v)
+    });
+    let l = log.clone();
+    ctx.add_function("tf", move |id: Value, _v: Value| -> ResolveResult {
+        l.lock().unwrap().push(format!("tf:{}", show_key(&from_cel(&id))));
+        Err(boom("tf"))
+    });
+    let l = log.clone();
+    ctx.add_function("fail", move || -> ResolveResult {
+        l.lock().unwrap().push("fail".into());
+        Err(boom("fail"))
+    });
+    let l = log.clone();
+    ctx.add_function("fail1", move |_a: Value| -> ResolveResult {
+        l.lock().unwrap().push("fail1".into());
+        Err(boom("fail1"))
+    });
+    let l = log.clone();
+    ctx.add_function("noop", move || -> ResolveResult {
+        l.lock().unwrap().push("noop".into());
+        Ok(Value::Null)
+    });
+    let l = log.clone();
+    ctx.add_function("h0", move || -> ResolveResult {
+        l.lock().unwrap().push("h0".into());
+        Ok(Value::Int(0))
+    });
+    let l = log.clone();
+    ctx.add_function("h1", move |a: Value| -> ResolveResult {
+        l.lock().unwrap().push("h1".into());
+        Ok(a)
+    });
+    let l = log.clone();
+    ctx.add_function("h2", move |a: Value, _b: Value| -> ResolveResult {
+        l.lock().unwrap().push("h2".into());
+        Ok(a)
+    });
+    let l = log.clone();
+    ctx.add_function("h3", move |a: Value, _b: Value, _c: Value| -> ResolveResult {
+        l.lock().unwrap().push("h3".into());
+        Ok(a)
+    });
+    let l = log.clone();
+    ctx.add_function("h4", move |a: Value, _b: Value, _c: Value, _d: Value| -> ResolveResult {
+        l.lock().unwrap().push("h4".into());
+        Ok(a)
+    });
+    let l = log.clone();
+    ctx.add_function("m0", move |This(this): This<Value>| -> ResolveResult {
+        l.lock().unwrap().push("m0".into());
+        Ok(this)
+    });
+    let l = log.clone();
+    ctx.add_function("m1", move |This(this): This<Value>, _a: Value| -> ResolveResult {
+        l.lock().unwrap().push("m1".into());
+        Ok(this)
+    });
+    let l = log.clone();
+    ctx.add_function("m2", move |This(this): This<Value>, _a: Value, _b: Value| -> ResolveResult {
+        l.lock().unwrap().push("m2".into());
+        Ok(this)
+    });
+    let l = log.clone();
+    ctx.add_function("m3", move |This(this): This<Value>, _a: Value, _b: Value, _c: Value| -> ResolveResult {
+        l.lock().unwrap().push("m3".into());
+        Ok(this)
+    });
+    let l = log.clone();
+    ctx.add_function("va", move |Arguments(args): Arguments| -> ResolveResult {
+        l.lock().unwrap().push("va".into());
+        Ok(Value::List(args))
+    });
+    let l = log.clone();
+    ctx.add_function("idf", move |Identifier(name): Identifier| -> ResolveResult {
+        l.lock().unwrap().push(format!("idf:{name}"));
+        Ok(Value::String(name))
+    });
+    let l = log.clone();
+    ctx.add_function("thisopt", move |This(x): This<Option<i64>>| -> ResolveResult {
+        l.lock().unwrap().push(format!("thisopt:{x:?}"));
+        Ok(x.map(Value::Int).unwrap_or(Value::Null))
+    });
+    let l = log.clone();
+    let tb = table.clone();
+    ctx.add_function("q", move |a: Value| -> ResolveResult {
+        let key = from_cel(&a);
+        l.lock().unwrap().push(format!("q:{}", show_key(&key)));
+        match tb.iter().find(|(k, _)| crate::model::same(k, &key)) {
+            Some((_, Some(v))) => to_cel(v).ok_or_else(|| boom("q")),
+            Some((_, None)) => Err(boom("q")),
+            None => Ok(Value::Bool(false)),
+        }
+    });
+    let l = log.clone();
+    let tb = table.clone();
+    ctx.add_function("q2", move |a: Value, b: Value| -> ResolveResult {
+        let key = V::List(vec![from_cel(&a), from_cel(&b)]);
+        l.lock().unwrap().push(format!("q2:{}", show_key(&key)));
+        match tb.iter().find(|(k, _)| crate::model::same(k, &key)) {
+            Some((_, Some(v))) => to_cel(v).ok_or_else(|| boom("q2")),
+            Some((_, None)) => Err(boom("q2")),
+            None => Ok(Value::Bool(false)),
+        }
+    });
+}
+
+/// compile + execute `src` against Context::default() + host functions + vars; returns the run and the host log
+pub fn run_logged(src: &str, vars: &[(String, V)], table: &Table) -> (Ran, Vec<String>) {
+    match compile(src) {
+        Err(p) => (Ran::CompilePanic(p), vec![]),
+        Ok(Err(e)) => (Ran::NoCompile(e), vec![]),
+        Ok(Ok(p)) => {
+            let log = new_log();
+            let mut ctx = ctx_with(vars);
+            install_host(&mut ctx, &log, table);
+            let r = exec(&p, &ctx);
+            let l = log.lock().unwrap().clone();
+            (Ran::Done(r), l)
+        }
+    }
+}
